@@ -283,11 +283,21 @@ def build_free_energy(am, name, Tstart, s, jitter=1.03):
 
     logging.disable(logging.CRITICAL)
     pot = budgeted(MD.make_potential(am))
+    loc = am.phase(name, float(Tstart))
+    assert loc is not None and am.is_minimum(name, float(Tstart))
+    # The potential object has been in use before under ANOTHER configuration of its derivative scales (the same parameters looked
+    # at in other units, 1e4 x larger numbers) and is then configured for this run, as the documentation of configureDerivatives /
+    # setupThermodynamicsHydrodynamics asks for whenever something changes. Nothing of the earlier configuration may survive.
+    pot.configureDerivatives(
+        WallGo.VeffDerivativeSettings(temperatureVariationScale=float(1e4 * DELTA_T * s), fieldValueVariationScale=[float(1e4 * FSCALE * s)] * am.nf)
+    )
+    try:
+        pot.findLocalMinimum(WallGo.Fields(loc * jitter), float(Tstart))
+    except Exception:  # noqa: BLE001 - what the earlier use returned is not this run's business
+        pass
     pot.configureDerivatives(
         WallGo.VeffDerivativeSettings(temperatureVariationScale=float(DELTA_T * s), fieldValueVariationScale=[float(FSCALE * s)] * am.nf)
     )
-    loc = am.phase(name, float(Tstart))
-    assert loc is not None and am.is_minimum(name, float(Tstart))
     fe = WallGo.FreeEnergy(pot, Tstart, WallGo.Fields(loc * jitter))  # guess 3% off (zero components stay zero)
     fe.disableAdaptiveInterpolation()  # as WallGoManager.initTemperatureRange does
     return fe
